@@ -89,13 +89,36 @@ def nlist(l):
     return "[" + "; ".join(str(x) for x in l) + "]"
 
 
-def scenarios(calls):
+# added after the first menus were recorded (ids continue after the product above, so that recorded scenario ids stay valid):
+# calls that write several buffers - a failing write can be the first, a middle or the last one
+FAULT_EXTRA = [
+    (0, "so 1 p 9 3 n n", 1, [2, 3]),
+    (2, "so 3 p 9 3 n n", 3, [1, 2]),
+    (4, "so 3 p 9 2 n n", 3, [1, 2]),
+    (0, "sm 1 0 p 3 3", 1, [2, 3]),
+    (5, "sm 1 0 p 3 3", 1, [2, 3]),
+    (6, "sm 1 1 p 3 2", 1, [2, 3]),
+]
+
+
+def scenarios(calls, extra=()):
     out = []
     for si, (sname, setup) in enumerate(STATES):
         for (c, p, others) in calls:
             out.append(dict(id=len(out), state=si, state_name=sname, setup=setup, call=c, pid=p,
                             others=others, fmts=FMTS))
+    for (si, c, p, others) in extra:
+        out.append(dict(id=len(out), state=si, shard=len(STATES), state_name=STATES[si][0], setup=STATES[si][1], call=c, pid=p,
+                        others=others, fmts=FMTS))
     return out
+
+
+def shard_of(s):
+    return s.get("shard", s["state"])
+
+
+def nshards(scs):
+    return max(shard_of(s) for s in scs) + 1
 
 
 def scen_term(s):
@@ -171,14 +194,17 @@ def menu_file(prefix, what, scs, extra):
                  % (prefix, what, len(scs), len(STATES), len(scs) // len(STATES))),
          "From Coq Require Import String.",
          "From HS Require Import Base PyVal FS Ops Spec Sched Codec CrashFault.", ""]
-    for si, (sname, setup) in enumerate(STATES):
-        o.append("(* start state %d: %s   [%s] *)" % (si, sname, setup))
+    for si in range(nshards(scs)):
+        if si < len(STATES):
+            o.append("(* start state %d: %s   [%s] *)" % (si, STATES[si][0], STATES[si][1]))
+        else:
+            o.append("(* added scenarios (several buffers written), from various start states *)")
         o.append("Definition %s_s%d : list scen := [" % (kind, si))
-        part = [s for s in scs if s["state"] == si]
+        part = [s for s in scs if shard_of(s) == si]
         o.append(";\n".join("  %s   (* %d: %s *)" % (scen_term(s), s["id"], s["call"]) for s in part))
         o.append("  ]%list.")
         o.append("")
-    o.append("Definition %s_menu : list scen :=\n  (%s)%%list." % (kind, " ++ ".join("%s_s%d" % (kind, i) for i in range(len(STATES)))))
+    o.append("Definition %s_menu : list scen :=\n  (%s)%%list." % (kind, " ++ ".join("%s_s%d" % (kind, i) for i in range(nshards(scs)))))
     o.append("")
     o.append("(* the same menu as text (setup line, call line), as written to %s *)"
              % ("menus10.json" if kind == "crash" else "menus13.json"))
@@ -289,7 +315,7 @@ def gen_fault(fa, res13):
         + klist("known13_unclassified", fam["None"], "failures that do not have the D10 shape")
         + "\nDefinition known13 : list known_t :=\n  (known13_D10_bound ++ known13_D10_half_bound ++ known13_unclassified)%list.\n")
     menu_file("Fault13", "fault (C13)", fa, extra)
-    n = len(STATES)
+    n = nshards(fa)
     for si in range(n):
         open(os.path.join(TH, "Fault13_s%d.v" % si), "w").write(
             HEAD % ("Fault13_s%d.v — fault shard: every fault site of every call from start state %d, one-off and persistent." % (si, si)) +
@@ -383,7 +409,7 @@ def gen_fault(fa, res13):
 def main():
     if not os.path.exists(os.path.join(TH, "CrashFault.vo")):
         coqc("CrashFault.v")
-    cr, fa = scenarios(CRASH_CALLS), scenarios(FAULT_CALLS)
+    cr, fa = scenarios(CRASH_CALLS), scenarios(FAULT_CALLS, FAULT_EXTRA)
     res10, res13 = evaluate(cr, fa)
     points = gen_crash(cr, res10)
     sites, fam = gen_fault(fa, res13)
@@ -398,7 +424,7 @@ def main():
     files = ["Crash10_menu.v", "Fault13_menu.v"]
     for f in files:
         coqc(f)
-    shards = ["Crash10_s%d.v" % i for i in range(len(STATES))] + ["Fault13_s%d.v" % i for i in range(len(STATES))]
+    shards = ["Crash10_s%d.v" % i for i in range(len(STATES))] + ["Fault13_s%d.v" % i for i in range(len(STATES) + (1 if FAULT_EXTRA else 0))]
     procs = []
     for f in shards:                       # at most 8 at a time
         while len([p for p in procs if p.poll() is None]) >= 8:
